@@ -153,6 +153,43 @@ impl C06 {
         let step = tier.pick(6, 1);
         all.into_iter().step_by(step).collect()
     }
+    /// the move family: an object that is reachable only through a source container is stored into a holder
+    /// (one program per store instruction kind x way of dropping the source reference x declaration order, so that
+    /// the search contains states where the holder is already marked and the source is not, and the reverse)
+    pub fn moves() -> Vec<(String, String, Vec<Input>)> {
+        // (name, type declarations, holder declaration, store target)
+        let dests: [(&str, &str, &str, &str); 6] = [
+            ("field", "type Hd = {\n  item: array<int>\n}\n", "let h = Hd([0])\n", "h.item"),
+            ("index", "", "let h = [[0]]\n", "h[0]"),
+            ("push", "", "let h = [[0]]\n", "PUSH"),
+            ("nested-field", "type Hd = {\n  item: array<int>\n}\ntype Ot = {\n  inner: Hd\n}\n", "let h = Ot(Hd([0]))\n", "h.inner.item"),
+            ("field-of-element", "type Hd = {\n  item: array<int>\n}\n", "let h = [Hd([0])]\n", "h[0].item"),
+            ("index-of-field", "type Hx = {\n  items: array<array<int>>\n}\n", "let h = Hx([[0]])\n", "h.items[0]"),
+        ];
+        // (name, type declarations, source declaration, expression yielding the object, statement dropping the source's reference)
+        let srcs: [(&str, &str, &str, &str, &str); 4] = [
+            ("pop", "", "let src = [[7]]\n", "src.pop()", ""),
+            ("index-then-overwrite", "", "let src = [[7]]\n", "src[0]", "src[0] = [1]\n"),
+            ("field-then-overwrite", "type Sr = {\n  v: array<int>\n}\n", "let src = Sr([7])\n", "src.v", "src.v = [1]\n"),
+            ("pop-from-field", "type Sq = {\n  vs: array<array<int>>\n}\n", "let src = Sq([[7]])\n", "src.vs.pop()", ""),
+        ];
+        let mut v = vec![];
+        for (dn, dty, ddecl, target) in dests {
+            for (sn, sty, sdecl, expr, drop_stmt) in srcs {
+                for holder_first in [false, true] {
+                    let store = if target == "PUSH" { format!("h.push({expr})\n") } else { format!("{target} = {expr}\n") };
+                    let read_back = match dn {
+                        "push" => "h[1][0]".to_string(),
+                        _ => format!("{target}[0]"),
+                    };
+                    let decls = if holder_first { format!("{ddecl}{sdecl}") } else { format!("{sdecl}{ddecl}") };
+                    let text = format!("use vh\n{dty}{sty}{decls}{store}{drop_stmt}vh_emit_int({read_back})\n");
+                    v.push((format!("move:{dn}<-{sn}:{}", if holder_first { "holder-first" } else { "source-first" }), text, vec![]));
+                }
+            }
+        }
+        v
+    }
 }
 
 impl Prop for C06 {
@@ -163,18 +200,20 @@ impl Prop for C06 {
         "model_checking"
     }
     fn n_units(&self, tier: Tier) -> usize {
-        Self::selected(tier).len() + Self::generated(tier).len()
+        Self::selected(tier).len() + Self::generated(tier).len() + Self::moves().len()
     }
     fn run_unit(&self, tier: Tier, unit: usize, out: &mut UnitOut) {
         let nsel = Self::selected(tier).len();
         let (name, text, inputs): (String, String, Vec<Input>) = if unit < nsel {
             let (n, body, inputs, _) = Self::selected(tier).swap_remove(unit);
             (n.to_string(), full_text(body), inputs)
-        } else {
+        } else if unit < nsel + Self::generated(tier).len() {
             Self::generated(tier).swap_remove(unit - nsel)
+        } else {
+            Self::moves().swap_remove(unit - nsel - Self::generated(tier).len())
         };
         let name = name.as_str();
-        let generated = unit >= nsel;
+        let generated = unit >= nsel && unit < nsel + Self::generated(tier).len();
         if !out.begin_case(0) {
             return;
         }
@@ -235,18 +274,19 @@ impl Prop for C06 {
             .into_iter()
             .map(|(n, b, i, _)| (n.to_string(), full_text(b), i))
             .chain(Self::generated(Tier::Thorough))
+            .chain(Self::moves())
             .collect();
         let (name, _, inputs) = all.into_iter().find(|(_, t, _)| t == text)?;
         Some(sched::replay_schedule(&name, text, inputs, schedule))
     }
     fn rule(&self, tier: Tier) -> String {
         format!(
-            "for each of the {} P-gc programs: breadth-first search of ALL interleavings of mutator instructions (M) with collector micro-steps \
+            "for each of the {} P-gc programs (hand-modelled, generated heap programs, and the move family: store kind x source-drop kind x declaration order): breadth-first search of ALL interleavings of mutator instructions (M) with collector micro-steps \
              (start cycle, mark one grey object, sweep one object; per green thread) with at most {} cycles per thread, on the real VM and collector \
              in manual-GC + quarantine mode; in every state the independent reachability walk must find no reclaimed object and no access may touch one; \
              every maximal path's outcome must equal the collection-disabled run; states merged on (mutator step count, per-thread collector fingerprint); \
              evaluations = programs searched",
-            Self::selected(tier).len(),
+            self.n_units(tier),
             tier.pick(2, 3)
         )
     }
